@@ -37,7 +37,7 @@ def make_producer(rng, tier):
     shape = tuple(rng.randint(2, 9 if tier == "quick" else 14) for _ in range(nd))
     a = (np.arange(int(np.prod(shape)), dtype="f8") * 0.5 + 1).reshape(shape)
     x = da.from_array(a, chunks=rand_chunks(rng, shape))
-    kind = rng.choice(["plain", "sliding", "sliding", "sliding_keep", "elem_slice", "rechunk_slice", "reshape", "concat_rechunk", "transpose", "daskint", "sliding_drift"])
+    kind = rng.choice(["plain", "sliding", "sliding", "sliding_keep", "elem_slice", "rechunk_slice", "reshape", "concat_rechunk", "transpose", "daskint", "sliding_drift", "take_slice", "take_slice"])
     e = a
     if kind == "sliding_drift":
         # search for a layout whose optimized grid differs from the advertised one while coarse summaries (block
@@ -79,6 +79,21 @@ def make_producer(rng, tier):
         x = x.rechunk(rand_chunks(rng, e.shape))
     elif kind == "transpose" and nd >= 2:
         x, e = x.T, a.T
+    elif kind == "take_slice":
+        # a contiguous window of a fancy-indexed array: the slice may be pushed through the take, which regroups the blocks
+        n = shape[0]
+        if rng.random() < 0.5:
+            idx = list(range(n))
+            for i in range(0, n - 1, 2):
+                if rng.random() < 0.7:
+                    idx[i], idx[i + 1] = idx[i + 1], idx[i]
+        else:
+            idx = [rng.randrange(n) for _ in range(rng.randint(2, n + 3))]
+        lo = rng.randint(0, max(0, len(idx) - 2))
+        hi = rng.randint(lo + 1, len(idx))
+        x, e = x[idx][lo:hi], a[idx][lo:hi]
+        if rng.random() < 0.4:
+            x, e = x + 1, e + 1
     elif kind == "daskint":
         n = shape[0]
         idx = np.array([rng.randrange(n) for _ in range(rng.randint(1, 5))])
